@@ -12,10 +12,16 @@ _m(
     "(periodic pairs iff wrap_around) is frac*pi, frac in [0.05, 0.95], plus an offset in [-pi, pi] x route (direct "
     "unwrap_phase_2d_torch with float32/float64 input, wrapped or already-unwrapped, outside-mask values = field/zeros/"
     "noise | unwrap_bf_overlap_phase_torch on complex64 data embedded through bf_mask/mask_bf, one or two passes, "
-    "wrap_around default or explicit); five strata (no mask / masked wrapped / masked already-unwrapped / bf route / Poisson) each get their own run; the Poisson method is run for no-raise/finite/shape only.  A case is "
+    "wrap_around default or explicit); six strata (no mask / masked wrapped / masked already-unwrapped / bf route / seam / Poisson) each get their own "
+    "run; the seam stratum draws periodic grids (wrap_around=True) that are thin (1xW, 2xW, Hx1, Hx2; four in six), narrow "
+    "(3xW, Hx3) or regular (8..18 square-ish), long side >= 8, with band masks - a band of columns and/or rows that does not "
+    "touch the border is removed (plus up to 2 single-pixel holes), so the remaining strips are connected only through the "
+    "periodic seam - and a dominant harmonic of order 1-2 along the cut axis (frac >= 0.8) so the field really wraps, through "
+    "the direct and the bf route; the Poisson method is run for no-raise/finite/shape only.  A case is "
     "NON-TRIVIAL when the wrap count k = round((truth - wrap(truth))/2pi) is not constant on at least one connected "
-    "component of the mask (a wrap line has to be undone) and, if a mask is given, the mask has a hole or >= 2 connected "
-    "components (mask=None cases with a wrap count as non-trivial; Poisson smoke cases never do); distinct = SHA-1 of the "
+    "component of the mask (a wrap line has to be undone) and, if a mask is given, the mask has a hole, >= 2 connected "
+    "components or a region connected only through the periodic border (class seam_connected_mask; thin_grid = a side <= 2)"
+    " (mask=None cases with a wrap count as non-trivial; Poisson smoke cases never do); distinct = SHA-1 of the "
     "canonical JSON of the whole recipe.",
     [
         "Itoh's condition is imposed over the neighbour pairs the property names (4-neighbours inside the mask, periodic "
